@@ -15,5 +15,5 @@ CONSTANTS
   F6Quirk = FALSE
   F7Quirk = FALSE
   PoorShare = 0
-INVARIANTS ErrAgree ConformCounters ConformNet ConformChains ConformLogs ReloadOpens ConformShadowChains ReleaseRule ReleaseRuleReest NeverBroadcastRevoked SecretsInOrder NextPointRule ReestPointRule StaleSecretsRule
+INVARIANTS BadRevRefused ErrAgree ConformCounters ConformNet ConformChains ConformLogs ReloadOpens ConformShadowChains ReleaseRule ReleaseRuleReest NeverBroadcastRevoked SecretsInOrder NextPointRule ReestPointRule StaleSecretsRule
 CHECK_DEADLOCK TRUE
